@@ -43,7 +43,7 @@ CLAIMED = {
         'reverse rules of dot, outer, inv, solve, trace, transpose, det and logdet as coded are the transposes, for the pairing tr(A^T B), of the '
         'differentials, and the differentials are justified by first-order expansions with a nilpotent scalar, including Jacobi\'s formula '
         'det(A + eps V) = det A + eps tr(adj(A) V); the executable rules over series of list matrices are their Cauchy products; the reverse rules of '
-        'lu, cholesky, qr (square) and eigh (distinct eigenvalues) are the adjoints for all tangent tuples satisfying the linearised defining equations. On every run: the adjoint identity on the implementation for '
+        'lu, cholesky, qr (square and tall reduced) and eigh (distinct eigenvalues) are the adjoints for all tangent tuples satisfying the linearised defining equations. On every run: the adjoint identity on the implementation for '
         'generated programs (F\'v from forward propagation alone, evaluation point != recording point, D<=4, P<=3, all orders), every xbar '
         'coefficient of rational scalar programs with buffers against the Coq model, UTPM.pb_dot / pb_inv / pb_solve / pb_lu / pb_cholesky / pb_qr called directly against the '
         'executable rules (exact over Qc), and documented unsupported operations raising.',
